@@ -147,7 +147,7 @@ class P(Prop):
 
     def gen_case(self):
         rng = self.rng
-        c = gen.circuit(rng, n_in=(1, 4), n_gates=(1, 7), max_arity=3, consts=0.15, dead=False, cyclic=rng.random() < 0.1)
+        c = gen.circuit(rng, n_in=(1, 4), n_gates=(1, 7), max_arity=3, consts=0.15, dead=False, cyclic=rng.random() < 0.1, selfloops=0.05)
         if rng.random() < 0.4:
             gen.add_flops(rng, c)
         if rng.random() < 0.3:
